@@ -169,6 +169,7 @@ def impl_run(case):
     lab = labs.__getitem__
     try:
         G = make(cls, case["m"])
+        G.graph["note"] = ["user attribute"]      # "copy() returns an equal graph": graph attributes included
     except Exception as e:  # noqa: BLE001
         return {"steps": [], "build": type(e).__name__}
     steps, copies = [], []
@@ -179,6 +180,10 @@ def impl_run(case):
             Cp = extra
             before, _ = observe(G, cls, inv)
             step["copy_class_ok"] = type(Cp) is type(G)
+            try:
+                step["copy_gattr_ok"] = dict(Cp.graph) == dict(G.graph)
+            except Exception:
+                step["copy_gattr_ok"] = False
             copies.append((G, before, len(steps)))
             G = Cp
         elif raised:
@@ -274,6 +279,8 @@ def spec_problems(case, res, inv_answers):
         if op[0] == "cp" and not step["raised"]:
             if not step.get("copy_class_ok", True):
                 bad.append((i, "copy-class", "copy() is not of the same class"))
+            if not step.get("copy_gattr_ok", True):
+                bad.append((i, "copy-graph-attributes", "copy() does not carry the graph attributes of the original"))
             if st != prev:
                 bad.append((i, "copy-differs", "copy() differs from the original: %s vs %s" % (st, prev)))
         prev = st
